@@ -1,3 +1,19 @@
 from props.common import run_all as run  # noqa: F401
 
-META = {"claimed": False, "reason": "check not built yet (work in progress; the technique applies, see DESIGN.md section 5)"}
+META = {'claimed': True,
+ 'title': 'AES block encryption and the AES-CTR stream equal FIPS-197 / SP 800-38A',
+ 'level_text': 'proof: FIPS-197 is transcribed with the S-box DEFINED as field inverse + affine map (the literal table is proved equal on all of N). The AES-NI code (crypto_aes_aesni.c) is modelled '
+               'at instruction level over the regenerated MKRKEY128/256 rcon/shuffle immediates and aesenc chain: both key expansions equal the FIPS-197 key schedule for every key and block '
+               'encryption equals Cipher for every 128-/256-bit key and block (C02_aesni_block_is_fips197). crypto_aesctr.c / crypto_aesctr_aesni.c are modelled for an ARBITRARY 16-byte block '
+               'function E: init2 establishes the stream invariant from any prior object content; every call of any size on either path preserves it and writes input XOR keystream bytes '
+               'total..total+len-1 (C02_ctr_inv_stream); hence for every call sequence (sizes 0 included, < 2^64 bytes) output = data XOR E(nonce_be64||i_be64) in order (C02_ctr_stream_correct), '
+               'independent of the partition and of which path each call took (C02_ctr_partition_independent), encrypting twice restores the input (C02_ctr_involutive), re-initialising restarts the '
+               'keystream (C02_ctr_reinit_restarts); end to end for the AES-NI build (C02_aesctr_aesni_is_ctr_of_fips197). 18 theorems, unbounded in key, nonce, data and partition. The software '
+               "build's block function is OpenSSL's: FIPS-197 is ASSUMED for it (C02_aesctr_portable_over_fips197_partial) and compared against the spec by the correspondence run of the "
+               'software-only configuration. In-place operation (aliasing) is exercised by the driver, not the model. Correspondence: both build configurations vs extracted model vs spec; keys '
+               '128/256, chunk scripts crossing the 16-byte routing threshold, white-box seek to high block indices (counter carry).',
+ 'level_note': 'Trusted: Coq kernel + vm_compute; the instruction semantics of aesenc/aesenclast/aeskeygenassist/shuffle/xor in Accel/AesNi.v (each compared with the real instruction on this CPU by '
+               'the C03 instruction sub-check); translator x_aes.py; OpenSSL AES_encrypt assumed FIPS-197 for the software configuration (checked by differential execution only); aliasing in-place '
+               'not modelled. Print Assumptions: closed under the global context.',
+ 'trusted_base': ['transcription of FIPS-197 / SP 800-38A CTR in coq/Crypto/AesSpec.v', 'x86 AES-NI instruction semantics in coq/Accel/AesNi.v', 'OpenSSL AES for the software build'],
+ 'assumptions': ["total stream length below 2^64 bytes (the C's bytectr is uint64_t)"]}
